@@ -2,7 +2,7 @@
 import os
 import sys
 sys.path.insert(0, os.path.dirname(os.path.dirname(os.path.abspath(__file__))))
-from props.common import main, Run, run_child, ALL_SIDECARS  # noqa: E402
+from props.common import main, Run, run_child, ALL_SIDECARS, bounded_companion  # noqa: E402
 from props.opcodes import opcode_contracts  # noqa: E402
 from props.c09 import STATE_FNS  # noqa: E402
 
@@ -59,6 +59,8 @@ REGISTRY_OPCODES = ("EXT1", "EXT2", "EXT4")
 
 def build(run: Run):
     run.replayers.append(make_replayer(run))
+    bounded_companion(run, "C03", "event_diff.py", [], what="replay/event_diff.py: corpus programs under pickle._Unpickler with inert find_class: every import and every call "
+                      "(by callee) of the VM's event log is a top-level statement of the decompiled module")
     run.verify(*STATE_FNS)
     run.verify("fickle.Interpreter.step", "fickle.Interpreter.run", "fickle.Interpreter.to_ast", "fickle.Interpreter.interpret")
     keys = opcode_contracts(run, extra_ensures=extra_ensures)
